@@ -40,6 +40,10 @@ pub enum Op {
     C(u64, u64),
     /// local: read up to n bytes (ordered) from slot
     Read(u8, usize),
+    /// local: read everything available, unordered (switches the stream to unordered reads for good)
+    ReadU(u8),
+    /// a stream read in order first and unordered afterwards: data, ordered read, unordered read
+    OrdThenUnord(u8),
     /// local: stop(slot)
     Stop(u8),
     /// local: set_receive_window
@@ -69,6 +73,7 @@ fn expand(l: &Lim, op: &Op) -> Vec<Op> {
             let h = l.stream_window / 2;
             vec![Op::S(*slot, 0, h, false), Op::Read(*slot, usize::MAX), Op::S(*slot, h, 5, true), Op::Read(*slot, usize::MAX)]
         }
+        Op::OrdThenUnord(slot) => vec![Op::S(*slot, 0, 10, false), Op::Read(*slot, usize::MAX), Op::ReadU(*slot)],
         Op::StopMore(slot) => {
             let sw = l.stream_window;
             vec![Op::S(*slot, 0, 10, false), Op::Stop(*slot), Op::S(*slot, sw - 10, 10, false)]
@@ -130,6 +135,8 @@ pub fn alphabet(l: &Lim) -> Vec<Op> {
     v.push(Op::Whole(1));
     v.push(Op::StopMore(0));
     v.push(Op::StopMore(1));
+    v.push(Op::ReadU(0));
+    v.push(Op::OrdThenUnord(0));
     v.push(Op::S(0, l.recv_window.min(sw) / 2, l.recv_window.min(sw) / 2, false));
     v.push(Op::D(10));
     v.push(Op::D(l.dgram_buf));
@@ -155,6 +162,10 @@ struct MStream {
     fin: Option<u64>,
     reset: Option<u64>,
     cursor: u64,
+    /// bytes handed to the application already (any read mode)
+    returned: Vec<bool>,
+    /// unordered reads were used: ordered reads are refused from then on
+    unordered: bool,
     stopped: bool,
     /// terminal outcome was observed by the application (stream is gone)
     done: bool,
@@ -432,6 +443,10 @@ pub fn run_seq(base: Instant, l: &Lim, vs: bool, seq: &[Op], dump: bool) -> Resu
                     // model prediction
                     let mut want: Vec<u8> = vec![];
                     let mut want_end: Option<&'static str> = None;
+                    if m.streams.get(&id).map_or(false, |s| s.unordered) {
+                        // ordered reads are refused once unordered reads were used: nothing to compare
+                        continue;
+                    }
                     let exists = m.streams.get(&id).map_or(false, |s| !s.done && !s.stopped);
                     if exists {
                         let st = m.streams.get_mut(&id).unwrap();
@@ -441,6 +456,10 @@ pub fn run_seq(base: Instant, l: &Lim, vs: bool, seq: &[Op], dump: bool) -> Resu
                         } else {
                             while (want.len() < *n) && st.got[st.cursor as usize] {
                                 want.push(pattern(id, st.cursor));
+                                if st.returned.len() <= st.cursor as usize {
+                                    st.returned.resize(st.cursor as usize + 1, false);
+                                }
+                                st.returned[st.cursor as usize] = true;
                                 st.cursor += 1;
                             }
                             st.consumed = st.cursor;
@@ -493,6 +512,96 @@ pub fn run_seq(base: Instant, l: &Lim, vs: bool, seq: &[Op], dump: bool) -> Resu
                         viol.push(("read-unexpected-data".into(), format!("step {step} {op:?}: {} bytes readable on a stream the model does not know", got.len())));
                     }
                 }
+                Op::ReadU(slot) => {
+                    let id = slot_id(vs, *slot);
+                    let sid = StreamId::from(VarInt::from_u64(id).unwrap());
+                    let exists = m.streams.get(&id).map_or(false, |s| !s.done && !s.stopped);
+                    // model: every byte received and not yet handed over, in any order
+                    let mut want: std::collections::BTreeSet<u64> = Default::default();
+                    let mut want_end: Option<&'static str> = None;
+                    if exists {
+                        let st = m.streams.get_mut(&id).unwrap();
+                        st.unordered = true;
+                        if st.reset.is_some() {
+                            want_end = Some("reset");
+                            st.done = true;
+                        } else {
+                            let hi = st.high as usize;
+                            if st.returned.len() < hi {
+                                st.returned.resize(hi, false);
+                            }
+                            for i in 0..hi {
+                                if st.got[i] && !st.returned[i] {
+                                    st.returned[i] = true;
+                                    want.insert(i as u64);
+                                }
+                            }
+                            st.consumed = st.returned.iter().filter(|b| **b).count() as u64;
+                            if let Some(f) = st.fin {
+                                if (0..f as usize).all(|i| st.returned.get(i).copied().unwrap_or(false)) {
+                                    want_end = Some("fin");
+                                    st.done = true;
+                                }
+                            }
+                        }
+                    }
+                    // real
+                    let mut got: Vec<u64> = vec![];
+                    let mut got_end: Option<&'static str> = None;
+                    let mut bad_content = false;
+                    let mut closed_stream = false;
+                    {
+                        let slot_ = p.w.nodes[victim].conns.get_mut(&vch).unwrap();
+                        let mut rs = slot_.conn.recv_stream(sid);
+                        let rd = rs.read(false);
+                        match rd {
+                            Err(_) => closed_stream = true,
+                            Ok(mut chunks) => {
+                                loop {
+                                    match chunks.next(usize::MAX) {
+                                        Ok(Some(c)) => {
+                                            for (k, b) in c.bytes.iter().enumerate() {
+                                                let o = c.offset + k as u64;
+                                                got.push(o);
+                                                if *b != pattern(id, o) {
+                                                    bad_content = true;
+                                                }
+                                            }
+                                        }
+                                        Ok(None) => {
+                                            got_end = Some("fin");
+                                            break;
+                                        }
+                                        Err(ReadError::Blocked) => break,
+                                        Err(ReadError::Reset(_)) => {
+                                            got_end = Some("reset");
+                                            break;
+                                        }
+                                    }
+                                }
+                                let _ = chunks.finalize();
+                            }
+                        }
+                    }
+                    p.w.settle_conn(victim, vch);
+                    if exists {
+                        let got_set: std::collections::BTreeSet<u64> = got.iter().copied().collect();
+                        if closed_stream {
+                            viol.push(("read-closed-stream".into(), format!("step {step} {op:?}: stream {id} has unread state in the model but read() says closed stream")));
+                        } else if bad_content || got_set.len() != got.len() || got_set != want || got_end != want_end {
+                            viol.push(("unordered-read-mismatch".into(), format!("step {step} {op:?}: application obtained {} bytes ({} distinct offsets, content ok: {}) end={got_end:?}, reference model says {} bytes end={want_end:?}", got.len(), got_set.len(), !bad_content, want.len())));
+                        }
+                    } else if !got.is_empty() {
+                        viol.push(("read-unexpected-data".into(), format!("step {step} {op:?}: {} bytes readable on a stream the model does not know", got.len())));
+                    } else if !closed_stream {
+                        // a stream opened implicitly by a higher-numbered one: it is in unordered mode now
+                        let sw = m.stream_window;
+                        let st = m.streams.entry(id).or_insert_with(|| MStream { adv: sw, got: vec![false; 70_000], ..Default::default() });
+                        if !st.done && !st.stopped {
+                            st.unordered = true;
+                        }
+                    }
+                }
                 Op::Stop(slot) => {
                     let id = slot_id(vs, *slot);
                     let sid = StreamId::from(VarInt::from_u64(id).unwrap());
@@ -527,7 +636,7 @@ pub fn run_seq(base: Instant, l: &Lim, vs: bool, seq: &[Op], dump: bool) -> Resu
                     p.w.settle_conn(victim, vch);
                     m.conc_max[1] = m.conc_max[1].max(*n);
                 }
-                Op::Whole(_) | Op::DFill | Op::StopMore(_) => unreachable!("expanded before execution"),
+                Op::Whole(_) | Op::DFill | Op::StopMore(_) | Op::OrdThenUnord(_) => unreachable!("expanded before execution"),
                 Op::RecvDgram => {
                     let mut sizes = vec![];
                     {
@@ -649,11 +758,11 @@ pub fn main(args: &Args) -> ! {
         let mut idx = vec![0usize; depth];
         loop {
             let seq: Vec<&Op> = idx.iter().map(|i| &a[*i]).collect();
-            let has_frame = seq.iter().any(|o| matches!(o, Op::S(..) | Op::R(..) | Op::D(..) | Op::C(..) | Op::Whole(..) | Op::DFill | Op::StopMore(..)));
+            let has_frame = seq.iter().any(|o| matches!(o, Op::S(..) | Op::R(..) | Op::D(..) | Op::C(..) | Op::Whole(..) | Op::DFill | Op::StopMore(..) | Op::OrdThenUnord(..)));
             // a sequence that starts with a local operation on nothing (read / stop of a stream that does
             // not exist yet, recv on an empty datagram queue) is the sequence of its remaining operations,
             // which is enumerated anyway as the prefix of others
-            let leading_noop = depth > 1 && matches!(seq[0], Op::Read(..) | Op::Stop(..) | Op::RecvDgram);
+            let leading_noop = depth > 1 && matches!(seq[0], Op::Read(..) | Op::ReadU(..) | Op::Stop(..) | Op::RecvDgram);
             if has_frame && !leading_noop {
                 tasks.push((li, true, idx.clone()));
                 if depth <= 3 && idx[depth - 1] == 0 {
